@@ -263,7 +263,12 @@ class EncodeState:
         left_pad = f"p{padding}" if padding > 0 else ""
 
         # actually encode the value
-        coded = bitstruct.pack(f"{left_pad}{format_char}{bit_length}", raw_value)
+        try:
+            coded = bitstruct.pack(f"{left_pad}{format_char}{bit_length}", raw_value)
+        except NotImplementedError as e:
+            # e.g., the accelerated bitstruct backend does not
+            # support integers larger than 64 bits
+            raise EncodeError(f"Cannot encode an object of {bit_length} bits: {e}")
 
         # create the raw mask of used bits for numeric objects
         used_mask_raw = used_mask
